@@ -12,6 +12,8 @@ for d in sorted(glob.glob(root + "/seeded/*")):
         m = re.match(r"(?:RE)?CHECK (C\d\d)(?: quick)?: ?(.*)", ln)
         if m:
             status[m.group(1)] = "detected" if m.group(2).startswith("VIOLATION") else "missed"
+    if any(l.startswith("OBSOLETE") for l in log):
+        status = {"": "no longer a behaviour change (see eval.log)"}
     summ = [l for l in log if l.startswith("SUMMARY")]
     agent = {}
     if os.path.exists(d + "/meta.agent.json"):
@@ -34,6 +36,6 @@ for d in sorted(glob.glob(root + "/seeded/*")):
     s = meta.get("summary", "").replace("|", "/").replace("\n", " ")
     if len(s) > 170:
         s = s[:170] + "..."
-    rows.append("| %s | %s | %s |" % (name, s, " ".join("%s:%s" % kv for kv in status.items())))
+    rows.append("| %s | %s | %s |" % (name, s, " ".join(("%s:%s" % kv).lstrip(":") for kv in status.items())))
 print("| seed | change | quick checks |\n|------|--------|--------------|")
 print("\n".join(rows))
